@@ -31,7 +31,7 @@ PROPS = {
         not_yet_proved=[],
     ),
     "C03": dict(
-        extra_modules=["CstModel.Proofs.Walk"],
+        extra_modules=["CstModel.Proofs.Walk", "CstModel.Proofs.WalkN"],
         runs=runs([("red", "release")],
                   [("red", "release"), ("red", "debug"), ("red", "lasso")]),
         tags=["C03"],
@@ -41,8 +41,8 @@ PROPS = {
              "(kind, node/token, span) and handle identity is checked to be a bijection with tree positions; non-trivial = the case returned at least one "
              "element; distinct = distinct op text",
         assumptions=["the resolved wrappers are re-typings (repr(transparent)); they are the same function in the model and are tied by running every operation through both APIs"],
-        not_yet_proved=["simulation for the node-only walk `preorder` (walkNextN); the with-tokens walk is proved (Proofs/Walk: walkNextT_sim, preorderWithTokens_spec)",
-                        "closed forms for last_child / next_sibling / prev_sibling (node-only) and for first_token/last_token/next_token/prev_token (tokens_spec)"],
+        not_yet_proved=["closed forms for last_child / prev_sibling (node-only, backwards) and for first_token/last_token/next_token/prev_token (tokens_spec); both walks (with tokens: "
+                        "preorderWithTokens_spec; nodes only: preorder_nodes_spec with firstChild_path / nextSibling_path) are proved"],
     ),
     "C04": dict(
         tags=["C04", "C01"],   # the history runs also evaluate the structural oracle: "equal in structure, kinds and text" is part of C04
@@ -203,8 +203,9 @@ PROPS = {
     ),
     "C18": dict(
         extra_modules=["CstModel.Proofs.DataSlot"],
-        runs=runs([("conc:data", "release")],
-                  [("conc:data", "release"), ("conc:data", "debug")]),
+        tags=["C18", "C08"],   # the marker probes run here too: data is handed out as a shared `Arc<D>`
+        runs=runs([("conc:data", "release"), ("probe:c08", "rustc")],
+                  [("conc:data", "release"), ("conc:data", "debug"), ("probe:c08", "rustc")]),
         rule="cases = executions under the deterministic scheduler (a scheduling point before every data-lock and slot-lock acquisition and every counter RMW) of 6 fixed "
              "+ 10 (thorough 60) random programs of 2-3 threads x 1-3 operations from {set, try_set, get, clear} (with navigation to a second node, so one or two "
              "nodes, reached through different handles) -- all schedules with <= 1 (thorough 2) preemptions + 30 (thorough 200) random schedules; every stored "
@@ -240,6 +241,7 @@ PROPS = {
         not_yet_proved=[],
     ),
     "C20": dict(
+        tags=["C20", "C04", "C01"],   # "as if the failed token had never been offered" includes the cache's sharing and the finished tree
         runs=runs([("faults", "release")],
                   [("faults", "release"), ("faults", "lasso"), ("faults", "debug")]),
         leakcheck=True,
